@@ -36,7 +36,7 @@ Case == IF c.kind = "addr"
         THEN [kind |-> "addr", system |-> c.a.system, host |-> c.a.host, port |-> c.a.port,
               name |-> c.a.name, parent |-> c.a.parent]
         ELSE [kind |-> "raw", toks |-> Text]
-Emit == c.kind = "seed" \/ PrintT(<<"CASE", ToJson(Case)>>)
+Emit == IF c.kind = "seed" THEN TRUE ELSE PrintT(<<"CASE", ToJson(Case)>>)
 
 (* design-level obligations on the transcription *)
 InvRoundTrip   == c.kind = "addr" => RoundTrip(c.a)
